@@ -124,6 +124,8 @@ def _bs_cases(rng, thorough):
             fin = [v for v in xt if not math.isnan(v)]
             lb = cfg["lower_bound"] if cfg["lower_bound"] is not None else min(fin)
             ub = cfg["upper_bound"] if cfg["upper_bound"] is not None else max(fin)
+            if cfg["knots"] is not None and not all(lb < k < ub for k in cfg["knots"]):
+                continue  # A-knots-input: breakpoints must be interior to the EFFECTIVE bounds (data range when a bound is None)
             g = _grid(lb, ub, cfg["knots"] or [])
             cases.append({"x": xt, "grid": g, "cfg": cfg, "tag": (bname, skind, tname, (a, s))})
     return cases
@@ -163,6 +165,8 @@ def _cubic_cases(rng, thorough):
             fin = [v for v in xt if not math.isnan(v)]
             lb = cfg["lower_bound"] if cfg["lower_bound"] is not None else min(fin)
             ub = cfg["upper_bound"] if cfg["upper_bound"] is not None else max(fin)
+            if cfg["knots"] is not None and not all(lb < k < ub for k in cfg["knots"]):
+                continue  # A-knots-input: breakpoints must be interior to the EFFECTIVE bounds (data range when a bound is None)
             g = _grid(lb, ub, cfg["knots"] or [])
             cases.append({"x": xt, "grid": g, "cfg": cfg, "tag": (bname, skind, tname, (a, s))})
     return cases
